@@ -613,6 +613,7 @@ func main() {
 	writeDir(concDir, concMods)
 	scs := concScenarios(r.Thorough())
 	var tot shardResult
+	r.JobName = func(j int) string { return fmt.Sprintf("scenario %v", scs[j]) }
 	r.Sharded(len(scs), func(j int) any { return exploreConc(r, concDir, scs[j]) }, func(j int, raw json.RawMessage) {
 		var sr shardResult
 		if err := json.Unmarshal(raw, &sr); err != nil {
